@@ -1,7 +1,7 @@
 (* Property C14 - only statements, each closed by [exact]. *)
 From Coq Require Import NArith ZArith List Bool.
 Import ListNotations.
-Require Import UV.C14.Model UV.C14.Proofs UV.C14.Patch UV.C14.Pages UV.C14.Layout UV.C14.SizeOpt UV.C14.Detect.
+Require Import UV.C14.Model UV.C14.Proofs UV.C14.Patch UV.C14.Pages UV.C14.Layout UV.C14.SizeOpt UV.C14.Detect UV.C14.PreEntry.
 Local Open Scope N_scope.
 
 (* ---- which functions are selected ---- *)
@@ -240,6 +240,30 @@ Theorem C14_detect_endbr_refuted :
   /\ snd (mcount_patch_func (find_module_type true SectNone DNone cet_mem [cet_sym]) 4080 0 cet_mem cet_sym) = Success.
 Proof. exact detect_endbr_refuted. Qed.
 Print Assumptions C14_detect_endbr_refuted.
+
+(* ---- -fpatchable-function-entry=N,M: locations recorded in front of the function ---- *)
+(* a location is patched as a symbol-less site only if no symbol begins 1..4 bytes behind it *)
+Theorem C14_resolve_none_no_start : forall syms a,
+  resolve_target syms a = None ->
+  find_sym syms a = None
+  /\ forall k, In k [1; 2; 3; 4] -> forall t, find_sym syms (a + k) = Some t -> s_addr t <> a + k.
+Proof. exact resolve_none_no_start. Qed.
+Print Assumptions C14_resolve_none_no_start.
+
+(* otherwise it stands for the function that begins there (whose own entry bytes then decide) *)
+Theorem C14_resolve_pre_entry : forall syms a s,
+  find_sym syms a = None -> resolve_target syms a = Some s ->
+  exists k, In k [1; 2; 3; 4] /\ s_addr s = a + k.
+Proof. exact resolve_pre_entry. Qed.
+Print Assumptions C14_resolve_pre_entry.
+
+(* the code as found wrote the call over the location: with =5,2 the entry point ends up inside the call
+   instruction (entry bytes changed, not a call) - the traced program dies with SIGILL/SIGSEGV *)
+Theorem C14_pre_entry_legacy_refuted :
+  let m' := fst (patch_patchable_func_matched_legacy O0 pe_cfg [pe_sym] [0] (pe_mem52, stats0)) in
+  m' 2 <> pe_mem52 2 /\ rd m' 2 5 <> call_insn 4080 2 /\ rd m' 0 5 = call_insn 4080 0.
+Proof. exact pre_entry_legacy_refuted. Qed.
+Print Assumptions C14_pre_entry_legacy_refuted.
 
 (* the size gate is 6 bytes but a function with endbr64 needs 9: the patch of a 6-byte symbol can
    land in the next symbol, which is itself below the gate (needs NOPs spanning two symbols) *)
